@@ -5,7 +5,6 @@ go 1.25.0
 require (
 	github.com/open2b/scriggo v0.0.0
 	github.com/yuin/goldmark v1.7.16
-	golang.org/x/net v0.34.0
 	golang.org/x/tools v0.43.0
 )
 
